@@ -21,7 +21,7 @@ Lbl(ids, tag, ok) == IF ok THEN {} ELSE {<<id, tag, l>> : id \in ids}
 Range(q) == {q[i] : i \in DOMAIN q}
 
 Cov0 == [scn |-> 0, cmd |-> 0, out |-> 0, bigout |-> 0, res |-> 0, fail |-> 0, sig |-> 0,
-         intr |-> 0, end |-> 0, fdprobe |-> 0, rsp |-> 0, parallel |-> 0, pty |-> 0, eq |-> 0, con |-> 0]
+         intr |-> 0, end |-> 0, fdprobe |-> 0, rsp |-> 0, parallel |-> 0, pty |-> 0, eq |-> 0, con |-> 0, frames |-> 0]
 Bump(c, f) == [c EXCEPT ![f] = @ + 1]
 BumpIf(c, f, b) == IF b THEN Bump(c, f) ELSE c
 
@@ -113,9 +113,13 @@ ConItem(c0, it, S) ==
 RECURSIVE ConFold(_, _, _, _)
 ConFold(c, items, i, S) == IF i > Len(items) THEN c ELSE ConFold(ConItem(c, items[i], S), items, i + 1, S)
 
+\* On a terminal (FancyConsoleProgress) nothing is printed when a command starts; what is flushed
+\* between frames is the same finish protocol (message, then the output), so the machine starts
+\* with every command that ran already announced.
 Con(ev) ==
   LET S == ev.steps
-      c == ConFold(ConInit, ev.items, 1, S)
+      c == ConFold(IF ev.fancy THEN [ConInit EXCEPT !.started = Range(ev.ran)] ELSE ConInit,
+                   ev.items, 1, S)
       ran == Range(ev.ran)
       \* every command that ran was announced; every one that printed something (and may show
       \* it) had its output shown
@@ -129,6 +133,30 @@ Con(ev) ==
      \cup Lbl({"CONF"}, "console-summary-on-failure", c.sum => ev.exit = 0)
      \cup UNION {Lbl({"CONF"}, tag, FALSE) : tag \in c.bad \ payTags}
      \cup Lbl({"CONF"}, "console-unannounced", ran \subseteq c.started)
+
+\* The frames FancyConsoleProgress draws on a terminal of ev.cols columns (progress_fancy.rs
+\* print_progress): "[bar] d/t done, [f failed, ]r/o running", one line per running task (at most
+\* eight) each optionally followed by the task's last output line, "...and N more", and a
+\* cursor-up over exactly the lines drawn.  C20: the bar is exactly its nominal width and every
+\* task line fits the terminal (in bytes) and is cut at a character boundary.
+CountKind(f, k) == Cardinality({i \in DOMAIN f.lines : f.lines[i][1] = k})
+Fancy(ev) ==
+  LET F == {ev.frames[i] : i \in DOMAIN ev.frames}
+      S == {f \in F : f.status}
+  IN Lbl({"C20"}, "frame-bar-width", \A f \in S : Len(f.bar) = 40)
+     \cup Lbl({"C20"}, "frame-line-width",
+              \A f \in S : \A i \in DOMAIN f.lines :
+                 f.lines[i][1] = "more" \/ (f.lines[i][2] <= ev.cols /\ f.lines[i][3]))
+     \cup Lbl({"CONF"}, "frame-cursor-up", \A f \in S : f.up = 1 + Len(f.lines))
+     \cup Lbl({"CONF"}, "frame-tasks",
+              \A f \in S : /\ CountKind(f, "task") = (IF f.run > 8 THEN 8 ELSE f.run)
+                            /\ CountKind(f, "more") = (IF f.run > 8 THEN 1 ELSE 0)
+                            /\ CountKind(f, "last") <= CountKind(f, "task"))
+     \cup Lbl({"C19"}, "frame-counts",
+              \A f \in S : f.done <= f.total /\ f.failed <= f.done)
+     \* (the task list is updated when a command starts, the counts once per scheduler round, so
+     \* only the -j bound relates them reliably)
+     \cup Lbl({"CONF"}, "frame-running", \A f \in S : f.run <= ev.j)
 
 \* Two runs that must not differ (pty vs pipe; -C vs cd).
 Eq(ev) ==
@@ -151,6 +179,8 @@ Step ==
                            /\ cov' = BumpIf(Bump(cov, "end"), "parallel", ev.j > 1)
        [] ev.e = "xcon" -> /\ viol' = viol \cup Con(ev)
                            /\ cov' = Bump(cov, "con")
+       [] ev.e = "xfancy" -> /\ viol' = viol \cup Fancy(ev)
+                             /\ cov' = [cov EXCEPT !.frames = @ + Len(ev.frames)]
        [] ev.e = "xeq"  -> /\ viol' = viol \cup Eq(ev)
                            /\ cov' = BumpIf(Bump(cov, "eq"), "pty", ev.tag = "pty-isolation")
        [] OTHER -> viol' = viol /\ cov' = cov
